@@ -348,6 +348,7 @@ func runC07(c *Ctx) {
 	c.rule("C07-R4", "TBL: the set of boundary stages reached by the compiled route handler (closure and its cmd/glyph helpers) equals the set reached by the interpreted path (executeRoute -> Interpreter.ExecuteRoute): ProcessQueryParams, ApplyTypeDefaults, ValidateObjectAgainstTypeDef, CheckType of the declared input type, CheckType of the declared return type")
 	stages := []string{interpPath + ".ProcessQueryParams", interpPath + ".Interpreter.ApplyTypeDefaults", interpPath + ".TypeChecker.ValidateObjectAgainstTypeDef", interpPath + ".TypeChecker.CheckType"}
 	reached := func(root *ssa.Function, pkgs ...string) map[string]bool {
+		paramRole := map[*ssa.Parameter]string{}
 		out := map[string]bool{}
 		seen := map[*ssa.Function]bool{}
 		var visit func(f *ssa.Function, d int)
@@ -370,12 +371,33 @@ func runC07(c *Ctx) {
 				if n == interpPath+".TypeChecker.CheckType" && len(call.Common().Args) >= 3 {
 					delete(out, n)
 					for _, fld := range []string{"ReturnType", "InputType"} {
-						if derivesFrom(call.Common().Args[2], func(v ssa.Value) bool { return loadedFromField(v, "Route", fld) }) {
+						if derivesFrom(call.Common().Args[2], func(v ssa.Value) bool {
+							if pp, ok := v.(*ssa.Parameter); ok && paramRole[pp] == fld {
+								return true
+							}
+							return loadedFromField(v, "Route", fld)
+						}) {
 							out[n+":"+fld] = true
 						}
 					}
 				}
 				if sf := staticFn(call); sf != nil && sf.Pkg != nil {
+					// a helper that is handed the declared type: its parameter stands for the route's field
+					for i, a := range call.Common().Args {
+						if i >= len(sf.Params) {
+							break
+						}
+						for _, fld := range []string{"ReturnType", "InputType"} {
+							if derivesFrom(a, func(v ssa.Value) bool {
+								if pp, ok := v.(*ssa.Parameter); ok && paramRole[pp] == fld {
+									return true
+								}
+								return loadedFromField(v, "Route", fld)
+							}) {
+								paramRole[sf.Params[i]] = fld
+							}
+						}
+					}
 					for _, p := range pkgs {
 						if sf.Pkg.Pkg.Path() == modPath+"/"+p && !strings.Contains(sf.Name(), "CheckType") && !strings.Contains(sf.Name(), "ValidateObject") && !strings.Contains(sf.Name(), "ApplyTypeDefaults") && !strings.Contains(sf.Name(), "ProcessQueryParams") {
 							visit(sf, d+1)
@@ -1462,15 +1484,30 @@ func compiledValidators(c *Ctx) (core []*ssa.Function, all map[*ssa.Function]boo
 		if f.Parent() != nil || f.Signature.Results().Len() != 1 || !isErrorType(f.Signature.Results().At(0).Type()) {
 			continue
 		}
-		direct := false
+		direct, general := false, false
 		eachInstr(f, func(_ *ssa.BasicBlock, _ int, ins ssa.Instruction) {
 			if call, ok := ins.(*ssa.Call); ok && callName(call) == interpPath+".TypeChecker.ValidateObjectAgainstTypeDef" {
 				direct = true
+			}
+			// the general form of a declared input type (T?, T | U, [T]) is checked with CheckType against the type
+			// itself: a function that does so for a type it is handed is a validator of the same standing
+			if call, ok := ins.(*ssa.Call); ok && callName(call) == interpPath+".TypeChecker.CheckType" && len(call.Call.Args) >= 3 {
+				if derivesFrom(call.Call.Args[2], func(v ssa.Value) bool {
+					if loadedFromField(v, "Route", "InputType") {
+						return true
+					}
+					p, isP := v.(*ssa.Parameter)
+					return isP && typeIs(p.Type(), astPath, "Type")
+				}) && bodyArgOfValue(call) {
+					general = true
+				}
 			}
 		})
 		if direct {
 			core = append(core, f)
 			all[f] = true
+		} else if general {
+			all[f] = true // a validator for the wrappers' purposes; the object-validator clauses do not apply to it
 		}
 	}
 	for changed := true; changed; {
@@ -1487,6 +1524,31 @@ func compiledValidators(c *Ctx) (core []*ssa.Function, all map[*ssa.Function]boo
 						continue
 					}
 					n++
+					// `valid` without asking a validator only where no input type is declared
+					if isNilConst(stripConv(retVals(ret)[0])) {
+						q := &pathQuery{fn: f, target: func(x ssa.Instruction) bool { return x == ins }, cutEdge: func(bb *ssa.BasicBlock, si int) bool {
+							iff := ifOf(bb)
+							if iff == nil {
+								return false
+							}
+							bo, ok := iff.Cond.(*ssa.BinOp)
+							if !ok {
+								return false
+							}
+							isInput := func(v ssa.Value) bool {
+								return derivesFrom(v, func(z ssa.Value) bool { return loadedFromField(z, "Route", "InputType") })
+							}
+							if !((isInput(bo.X) && isNilConst(bo.Y)) || (isInput(bo.Y) && isNilConst(bo.X))) {
+								return false
+							}
+							return (bo.Op == token.EQL && si == 0) || (bo.Op == token.NEQ && si == 1)
+						}}
+						if hit, _ := q.fromEntry(); hit != nil {
+							okAll = false
+						}
+						n--
+						continue
+					}
 					call, ok := stripConv(retVals(ret)[0]).(*ssa.Call)
 					if !ok || staticFn(call) == nil || !all[staticFn(call)] || bodyArgOf(call) == nil {
 						okAll = false
@@ -1589,4 +1651,13 @@ func freshDefaultsRule(c *Ctx, rule string) {
 			c.undecided(rule+": ApplyTypeDefaults has %d writes into its result, expected >= 2", n)
 		}
 	}
+}
+
+// bodyArgOfValue: the value CheckType is asked about is the request body handed to this function (a parameter, or
+// derived from one), not something computed afterwards (a route's result).
+func bodyArgOfValue(call *ssa.Call) bool {
+	if len(call.Call.Args) < 2 {
+		return false
+	}
+	return derivesFrom(call.Call.Args[1], func(v ssa.Value) bool { _, isP := v.(*ssa.Parameter); return isP })
 }
